@@ -7,12 +7,13 @@ import (
 
 func s(xs ...string) []string { return append([]string{}, xs...) }
 
+// tick advances d instants; expire arguments of the helpers below are in units (= B instants)
 func tick(d int64) Step { return Step{Act: "tick", S: s(), N: "nil", O: "nil", M: "nil", X: d, Ty: "nil", D: "nil"} }
 func regTLD(S []string, n string, x int64) Step {
-	return Step{Act: "registerTLD", S: S, N: n, O: "nil", M: "m1", X: x, Ty: "nil", D: "nil"}
+	return Step{Act: "registerTLD", S: S, N: n, O: "nil", M: "m1", X: x * B, Ty: "nil", D: "nil"}
 }
 func reg(S []string, n, o string, x int64) Step {
-	return Step{Act: "register", S: S, N: n, O: o, M: "m1", X: x, Ty: "nil", D: "nil"}
+	return Step{Act: "register", S: S, N: n, O: o, M: "m1", X: x * B, Ty: "nil", D: "nil"}
 }
 func xfer(S []string, n, to string) Step {
 	return Step{Act: "transfer", S: S, N: n, O: to, M: "nil", Ty: "nil", D: "nil"}
@@ -24,7 +25,7 @@ func setAdmin(S []string, n, a string) Step {
 	return Step{Act: "setAdmin", S: S, N: n, O: a, M: "nil", Ty: "nil", D: "nil"}
 }
 func updSOA(S []string, n, m string, x int64) Step {
-	return Step{Act: "updateSOA", S: S, N: n, O: "nil", M: m, X: x, Ty: "nil", D: "nil"}
+	return Step{Act: "updateSOA", S: S, N: n, O: "nil", M: m, X: x * B, Ty: "nil", D: "nil"}
 }
 func add(S []string, n, ty, d string) Step {
 	return Step{Act: "addRecord", S: S, N: n, O: "nil", M: "nil", Ty: ty, D: d}
